@@ -491,14 +491,16 @@ func c16GotGroups(v interface{}) ([]c16Group, string) {
 // ---------------------------------------------------------------------------------------------
 // datasets
 
+// Candidate bits, most collision-prone first (a tier uses a prefix): the first four put the same
+// row and the same group into two shards (merge of equal rows / equal groups across shards).
 var c16Cand = []c16Bit{
 	{"a", 0, 0},
 	{"b", 1, 0},
+	{"a", 0, c16SW},
+	{"b", 1, c16SW},
 	{"a", 1, c16SW},
 	{"b", 0, c16SW},
 	{"a", 2, 2 * c16SW},
-	{"b", 1, c16SW},
-	{"a", 0, c16SW},
 	{"b", 2, 2 * c16SW},
 	{"a", 1, 1},
 	{"b", 3, 0},
@@ -1149,8 +1151,11 @@ func c16Part1(c *vx.Check, nbits int, wrapKnown bool) {
 	}
 	var jobs []job
 	for mask := 0; mask < 1<<uint(nbits); mask++ {
-		for g := range c16GhostModes {
+		for g, gm := range c16GhostModes {
 			for _, vs := range []bool{true, false} {
+				if !vs && !c.Thorough() && gm != "absent" && gm != "kept" {
+					continue // quick: the removal modes are only combined with the Set write path
+				}
 				jobs = append(jobs, job{mask, g, vs})
 			}
 		}
@@ -1401,7 +1406,7 @@ func TestVerif_C16(t *testing.T) {
 	c := vx.NewCheck("C16", "exploration",
 		"datasets (every subset of the candidate bits of two set fields over three shards x treatment of two ghost bits x write path) x every Rows(previous x limit x column), MinRow/MaxRow(filter), GroupBy(children x limit x offset x filter x child limit/column) call, paging loops run to exhaustion; time field: every subset of timestamped bits x from/to x limit x previous x column; oracle = sorted distinct non-empty rows / exact cross-product counts / concatenated pages == unpaged; distinct = distinct non-empty datasets")
 	defer c16CloseAll()
-	nb := c.Pick(5, 8)
+	nb := c.Pick(6, 8)
 	c.Bound("candidate_bits", nb)
 	wrapKnown := false
 	if !vx.IsChild() {
